@@ -10,7 +10,11 @@
 #include <stdbool.h>
 #include <sys/types.h>
 
+#ifdef VS_NO_REACH
+#define VS_REACH(label) ((void)0)      /* main proof run: the markers are checked in a separate, cheap run (tools/pipeline.py) */
+#else
 #define VS_REACH(label) __CPROVER_assert(0, "REACH:" #label)
+#endif
 #define OLD(x)   __CPROVER_old(x)
 #define RET      __CPROVER_return_value
 #define FRESH(p, n) __CPROVER_is_fresh(p, n)
